@@ -292,6 +292,8 @@ def run_random(case, rec):
             rec.cls(f"op={op}")
     for bucket, detail in v[:2]:
         rec.fail(bucket, detail)
+        if bucket in ("hang", "deadlock"):
+            rec.stop_shard = True
 
 
 def run_exhaustive(case, rec):
@@ -310,6 +312,8 @@ def run_exhaustive(case, rec):
             blocked_runs += 1
         if v:
             rec.fail(v[0][0], {"schedule": info["choices"], "detail": v[0][1]})
+            if v[0][0] in ("hang", "deadlock"):
+                rec.stop_shard = True
             break
         sched = next_schedule(info["choices"], info["trace"])
     rec.evals += n
@@ -361,6 +365,7 @@ def run_real(case, rec):
     rec.cls(f"op={op}")
     if to.is_alive() or tr.is_alive():
         rec.fail(f"real-lock:deadlock:{op}", {"owner_alive": to.is_alive(), "reader_alive": tr.is_alive(), "inner": case["inner"]})
+        rec.stop_shard = True  # every further case would wait for the watchdog again
         return
     if "err" in out:
         rec.fail(f"real-lock:snapshot-raised:{op}", repr(out["err"])[:200])
